@@ -6,6 +6,7 @@ import ast
 from ..core import AnalysisError, call_name, dotted, norm, walk_no_nested, kwarg
 from ..guards import A, And, Not, Or, equivalent, implies, is_call_named, path_formula, show_formula, sites, T, to_formula
 from ..registry import describe, rule
+from .. import tmatch as tm
 from ..util import PARENT_CALLS, CHILD_CALLS, assigned_value, calls_named, is_method_call, neighbour_kind, peel, resolve, returns_of, is_self_attr
 
 DAG = "pgmpy/base/DAG.py"
@@ -556,6 +557,9 @@ def defuse(rc):
     _sh.defuse_rule(rc, _sh.anchor_files("C08"))
 
 MUTANTS = [
+    dict(kind="break", name="dseparator-none-after-parents-only", file=DAG, expect="C08.separator",
+         old="            separator = set(an_graph.nodes()) - self.latents - {start, end}\n            if an_graph.is_dconnected(start, end, observed=separator):\n                return None",
+         new="            return None"),
     dict(kind="break", name="is-dconnected-strips-latents", file=DAG, expect="C08.routing",
          old="            in self.active_trail_nodes(start, observed, include_latents=True)[start]", new="            in self.active_trail_nodes(start, observed)[start]"),
     dict(kind="break", name="start-down", file=DAG, expect="C08.table",
@@ -667,6 +671,22 @@ def separator(rc):
     none_ret = [s for s in sites(fn, lambda n: isinstance(n, ast.Return) and isinstance(n.value, ast.Constant) and n.value.value is None)]
     ok_ver = any(any(isinstance(t, ast.Call) and call_name(t) == "is_dconnected" and pol for t, pol in s.conds) for s in none_ret)
     rc.ob(f"unseparable pair answered with None after an is_dconnected test: {ok_ver}")
+    # with latent variables, "no separator" may only be concluded after the MAXIMAL observed candidate failed: if any observed set separates the endpoints,
+    # so does the set of all observed nodes of their ancestral graph (the parents-with-latents-replaced set can fail although a separator exists)
+    full = [(n_, b_) for n_, b_ in tm.find_all(fn, "_S = set(_AG.nodes()) - self.latents - {start, end}")]
+    ok_full = False
+    for s_ in none_ret:
+        for t, pol in s_.conds:
+            if pol and isinstance(t, ast.Call) and call_name(t) == "is_dconnected":
+                ob = kwarg(t, "observed") or (t.args[2] if len(t.args) > 2 else None)
+                if any(dotted(ob) == b_["_S"] and n_.lineno < t.lineno and all(n_.lineno > t2.lineno for t2, p2 in s_.conds if t2 is not t and isinstance(t2, ast.Call) and t2.lineno < t.lineno)
+                       for n_, b_ in full):
+                    ok_full = True
+    rc.ob(f"None only after the set of all observed ancestors failed to separate: {ok_full}")
+    if ok_ver and not ok_full:
+        rc.fail(fi, none_ret[0].node if none_ret else fn, "minimal_dseparator answers None as soon as the parents (latent ones replaced by their parents) fail to separate: with a latent parent "
+                "an observed separator can exist all the same (the observed ancestors of the endpoints separate whenever some observed set does); None must be concluded only after "
+                "that maximal candidate failed", construct="None before the maximal observed candidate")
     if not ok_ver:
         rc.fail(fi, fn, "if the candidate set does not d-separate the endpoints the answer must be None", construct="verification")
     # reduction loop
@@ -711,7 +731,7 @@ MUTANTS += [
          old="        while len(separator.intersection(self.latents)) != 0:\n            separator_copy = separator.copy()\n            for u in separator:\n                if u in self.latents:\n                    separator_copy.remove(u)\n                    separator_copy.update(set(self.predecessors(u)))\n            separator = separator_copy\n",
          new="        for u in separator.intersection(self.latents):\n            separator.remove(u)\n            separator.update(self.predecessors(u))\n"),
     dict(kind="break", name="separator-no-verification", file=DAG, expect="C08.separator",
-         old="        if an_graph.is_dconnected(start, end, observed=separator):\n            return None\n", new=""),
+         old="        if an_graph.is_dconnected(start, end, observed=separator):\n            separator = set(an_graph.nodes()) - self.latents - {start, end}\n            if an_graph.is_dconnected(start, end, observed=separator):\n                return None\n", new=""),
     dict(kind="break", name="prune-excludes-latents", file="pgmpy/inference/base.py", expect="C08.routing",
          old="variables=variables, observed=list(evidence.keys()), include_latents=True", new="variables=variables, observed=list(evidence.keys())"),
 ]
